@@ -228,7 +228,7 @@ def extra(cases, outs):
                 corruptions=sum(1 for c in cases if c['fault'].startswith('corrupt')), max_peak_bytes=peak)
 
 
-def run(chk, replay=None):
+def run_thrift(chk, replay=None):
     tags = {}
     stats = dict(compared=0, mismatches=0)
 
@@ -281,3 +281,16 @@ def run(chk, replay=None):
                           "compared per case with the prediction of the extracted ownership model (outcome; leak / no leak); "
                           "distinct by SHA-1 of the case line",
                      extra_dist=extra_all, model_ops=())
+
+
+def run(chk, replay=None):
+    """Thrift half (code emitted by pilota-build, ownership model of fam/gen) + protobuf half (prost runtime and emitted messages,
+    unsafe-site inventory + drop-guard model of fam/pb); a replay file belongs to exactly one of them"""
+    from . import c19pb
+    is_pb = replay is not None and replay.get('part') == 'pb'
+    parts = []
+    if replay is None or not is_pb:
+        parts.append(('thrift', lambda c: run_thrift(c, replay)))
+    if replay is None or is_pb:
+        parts.append(('pb', lambda c: c19pb.run(c, replay)))
+    return chk.run_parts(parts)
